@@ -32,6 +32,12 @@ fn main() {
     let shards: usize = arg(&args, "--shards", 1usize);
     match args[1].as_str() {
         "sel" => sel::run(arg(&args, "--max-n", 10usize), shards, &outdir),
+        "selp" => sel::run_prefix(
+            arg(&args, "--min-n", 12usize),
+            arg(&args, "--max-n", 18usize),
+            arg(&args, "--steps", 40usize),
+            &outdir,
+        ),
         "hung" => hung::run(
             arg(&args, "--seed", 1u64),
             arg(&args, "--count", 100usize),
